@@ -17,8 +17,17 @@
 // free (connect refused / datagram reaches nobody), and a throw-away socket binds each sampled free
 // endpoint (must succeed: nothing stale is left in the registry).
 //
-// modes: random (default), "exh" (every history of exactly N steps over a small alphabet),
+// Additional steps of the random mode: "feed" (a probe-node client connects to an acceptor under test, the accepted
+// socket joins the history: closing / moving / destroying it must not disturb the acceptor's binding), connects that are
+// left in flight or delivered but not accepted while the history goes on, "poke" (a datagram is left unread in a UDP
+// socket; it may later only be found in a socket that holds the endpoint it was sent to). One history in ten starts
+// with a connection attempt waiting at an acceptor that then gives its endpoint up and binds another one.
+// Every accept is attributed to the connect it belongs to: the accepting socket must hold, at that moment, the
+// endpoint the connect was addressed to.
+//
+// modes: random (default), "exh" (every history of exactly N steps over a small alphabet, --steps, --slots),
 // "wrap" (thorough only: > 64 k ephemeral binds with some ports held, 65534 -> 2000 wrap).
+// After the first violation a history is abandoned (reference and library have diverged).
 #include "vf.hpp"
 
 using namespace vf;
